@@ -392,7 +392,17 @@ func (x *XRefParser) parseXRefStream() (*XRefTable, error) {
 		if !ok {
 			return nil, fmt.Errorf("invalid /W element type: %T", val)
 		}
+		// A field width is a byte count within one entry: never negative, never beyond the data
+		if intVal < 0 || int64(intVal) > int64(len(data)) {
+			return nil, fmt.Errorf("invalid /W element: %d", intVal)
+		}
 		w[i] = int(intVal)
+	}
+	if w[0]+w[1]+w[2] == 0 {
+		return nil, fmt.Errorf("invalid /W array: entries have no width")
+	}
+	if len(index)%2 != 0 {
+		return nil, fmt.Errorf("invalid /Index array length: %d (expected pairs)", len(index))
 	}
 
 	// Parse entries from binary data
